@@ -15,21 +15,33 @@ for p in PROPS:
     base[p] = {r.get('key') for r in reports}
 known = {k['key'] for k in json.load(open(os.path.join(V, 'known_findings.json')))['findings'] if k['status'] == 'known'}
 shutil.rmtree(basedir, ignore_errors=True)
-for n in names:
+from concurrent.futures import ThreadPoolExecutor
+
+
+def one_seed(n):
     tmp, dst = selftest.make_scratch('seeded/%s/patch.diff' % n)
     if tmp is None:
-        print(n, 'PATCH DOES NOT APPLY'); continue
+        return n, None, None
     det, inc = [], []
     try:
         ev = os.path.join(tmp, 'ev'); os.makedirs(os.path.join(ev, 'violations'))
+        os.environ_lock = None
         for p in PROPS:
-            rc, reports, out = selftest.run_child(p, dst, ev)
+            rc, reports, out = selftest.run_child(p, dst, ev, cache=os.path.join(tmp, 'facts'))
             for r in reports:
                 if r.get('key') in base[p] or r.get('key') in known:
                     continue
                 (det if r.get('kind') == 'violation' else inc).append(r['rule'])
     finally:
         shutil.rmtree(tmp, ignore_errors=True)
+    return n, det, inc
+
+
+with ThreadPoolExecutor(max_workers=int(os.environ.get('SEED_JOBS', '6'))) as ex:
+    results = list(ex.map(one_seed, names))
+for n, det, inc in results:
+    if det is None:
+        print(n, 'PATCH DOES NOT APPLY'); continue
     det, inc = sorted(set(det)), sorted(set(inc) - set(det))
     mp = os.path.join(V, 'seeded', n, 'meta.json')
     m = json.load(open(mp))
